@@ -23,6 +23,13 @@ var produceFaultCodes = []struct {
 	{ErrCorruptMessage, false},
 	{ErrKafkaStorageError, false},
 	{ErrUnknownTopicOrPartition, false},
+	// codes that only mean something to an idempotent / transactional producer,
+	// fencing, quotas and the catch-all: nothing was appended
+	{46, false}, // DUPLICATE_SEQUENCE_NUMBER
+	{45, false}, // OUT_OF_ORDER_SEQUENCE_NUMBER
+	{74, false}, // FENCED_LEADER_EPOCH
+	{89, false}, // THROTTLING_QUOTA_EXCEEDED
+	{-1, false}, // UNKNOWN_SERVER_ERROR
 }
 
 func (c *Cluster) produce(b *Broker, r *Req) rc.Msg {
